@@ -40,6 +40,10 @@ type DiceSpec struct {
 	Pool, AddLine, Points, Threshold int64 `json:",omitempty"`
 	LE                               bool  `json:",omitempty"`
 	HasPoints, HasThreshold          bool  `json:",omitempty"`
+	// wod, VM only: an earlier k/q suffix in the same term, overridden by the effective one that
+	// follows it (the grammar takes the suffixes in any order and number)
+	PreKind string `json:",omitempty"`
+	PreVal  int64  `json:",omitempty"`
 }
 
 type C04Scenario struct {
@@ -99,6 +103,9 @@ func genDiceSpec(r *Rng) DiceSpec {
 		if d.HasThreshold {
 			d.Threshold = bnd(8, 6, 2, 1, 10, 0)
 			d.LE = r.Bool()
+			if d.Via == "vm" && r.Chance(1, 3) {
+				d.PreKind, d.PreVal = Pick(r, []string{"k", "q"}), bnd(8, 6, 2, 3, 5, 10, 1)
+			}
 		}
 		if d.Source == "max" || d.Source == "high" {
 			// every die explodes forever when the top face reaches the add line: known C07 finding, kept out
@@ -184,6 +191,9 @@ func (d *DiceSpec) term() string {
 			s += "m" + p(d.Points)
 		}
 		if d.HasThreshold {
+			if d.PreKind != "" && d.Via == "vm" {
+				s += d.PreKind + p(d.PreVal)
+			}
 			if d.LE {
 				s += "q" + p(d.Threshold)
 			} else {
@@ -228,6 +238,10 @@ type ruleResult struct {
 	shown  []int64
 	ok     bool
 	reason string
+	// wod with an overridden earlier threshold of the other direction: the reading in which both
+	// thresholds count is accepted as well as "the last one decides"
+	hasAlt bool
+	alt    int64
 }
 
 // rulebook recomputes the total of a family from the faces that were drawn.
@@ -311,7 +325,8 @@ func rulebook(d *DiceSpec, faces []int64) ruleResult {
 	case "wod":
 		pool := d.Pool
 		i := int64(0)
-		var succ int64
+		var succ, both int64
+		preOpposite := d.Via == "vm" && d.HasThreshold && (d.PreKind == "k" && d.LE || d.PreKind == "q" && !d.LE)
 		for pool > 0 {
 			if i+pool > int64(len(faces)) {
 				return ruleResult{reason: fmt.Sprintf("round needs %d dice at offset %d, only %d drawn", pool, i, len(faces))}
@@ -321,8 +336,12 @@ func rulebook(d *DiceSpec, faces []int64) ruleResult {
 				if d.AddLine != 0 && f >= d.AddLine {
 					add++
 				}
-				if !d.LE && f >= d.Threshold || d.LE && f <= d.Threshold {
+				hit := !d.LE && f >= d.Threshold || d.LE && f <= d.Threshold
+				if hit {
 					succ++
+				}
+				if hit || preOpposite && (d.PreKind == "k" && f >= d.PreVal || d.PreKind == "q" && f <= d.PreVal) {
+					both++
 				}
 			}
 			i += pool
@@ -331,7 +350,7 @@ func rulebook(d *DiceSpec, faces []int64) ruleResult {
 		if i != int64(len(faces)) {
 			return ruleResult{reason: fmt.Sprintf("%d dice drawn, the rounds account for %d", len(faces), i)}
 		}
-		return ruleResult{total: succ, draws: i, shown: faces, ok: true}
+		return ruleResult{total: succ, draws: i, shown: faces, ok: true, hasAlt: preOpposite, alt: both}
 	default:
 		pool := d.Pool
 		i := int64(0)
@@ -652,6 +671,10 @@ func c04Exec(raw json.RawMessage, res *RunResult) {
 			continue
 		}
 		nontrivial = nontrivial || len(faces) > 1
+		if rr.hasAlt && rr.alt == total && rr.total != total {
+			res.Probe("wod_both_thresholds_reading")
+			rr.total = total
+		}
 		if rr.total != total {
 			res.Violate("total-mismatch@"+d.Fam, "%s: returned %d, the rule gives %d for the drawn faces %v\n  detail=%q", what, total, rr.total, trunc(fmt.Sprint(faces), 200), trunc(text, 200))
 		}
